@@ -15,7 +15,7 @@ PROP = {
             "(|a|^2|b|^2 for the angles, partial products of element_product, b_i*(a.b)/(b.b) for project_onto, squared differences for distance) are tallied as "
             "range-skip for that function only. distinct = distinct hash of (type, backend, operand bits).",
     "builds": {
-        "quick": [B("stable"), B("nightly", 0.25, False)],
+        "quick": [B("stable"), B("fma", 0.25), B("nightly", 0.25, False)],
         "thorough": [B("stable"), B("fma", 0.5), B("nightly", 0.5, False)],
     },
     "volume": {"quick": 4},
